@@ -240,7 +240,7 @@ def run(ctx):
                 one(ctx, b"", k, kind, r, entry, defn, "empty", rng, progress=True)
                 ctx.count("empty.cases")
     # ---- arbitrary byte strings -------------------------------------------------------------------------------
-    for i in range(ctx.size(500, 50_000)):
+    for i in range(ctx.size(3000, 2_000_000)):
         if not ctx.mine(i):
             continue
         n = rng.choice([1, 5, 6, 7, 8, 13, 14, 30, rng.randrange(1, 400)])
